@@ -15,6 +15,8 @@ from accelforge.frontend.workload import EinsumName
 from accelforge.mapper.FFM._join_pmappings.join_pmappings import (
     clean_compress_and_join_pmappings,
 )
+from accelforge.mapper.FFM._pareto_df.df_convention import col_used_in_pareto
+from accelforge.mapper.FFM._pareto_df.pareto import makepareto
 from accelforge._accelerated_imports import pd
 
 from accelforge.util import delayed, _fillna_and__numeric_cast, parallel, oset
@@ -91,6 +93,12 @@ def map_workload_to_arch(
     if not eval_in_detail:
         return mappings
 
+    pareto_cols = [
+        c
+        for c in mappings.data.columns
+        if col_used_in_pareto(c) and pd.api.types.is_numeric_dtype(mappings.data[c])
+    ]
+
     def eval_mapping(i, spec, mappings):
         local_spec = deepcopy(spec)
         local_spec.model.metrics = local_spec.mapper.info_metrics
@@ -146,6 +154,13 @@ def map_workload_to_arch(
     #             print(f'\t{c}: {r[c]}')
 
     mappings.data = _fillna_and__numeric_cast(pd.concat(results), 0)
+
+    # The join compared float32 values. Mappings whose objectives differed only by
+    # rounding there can turn out dominated (or identical) once evaluated in detail.
+    pareto_cols = [c for c in pareto_cols if c in mappings.data.columns]
+    if pareto_cols and len(mappings.data) > 1:
+        objectives = mappings.data[pareto_cols].reset_index(drop=True)
+        mappings.data = mappings.data.iloc[makepareto(objectives, pareto_cols).index]
     return mappings
 
 
